@@ -8,7 +8,7 @@
 //!      count of non-zeros; FIRST position of the extreme, the first NaN winning) — the lane oracle cannot see a defect that
 //!      lives in the 1-D body itself, and the statement covers that body too ("with no axis the operation acts on the
 //!      flattened array", "position of the extreme").
-//! Every case is executed three times: the plain call, the plain call again (same answer required) and the chained call on
+//! Every case (up to 16 000 elements; beyond that the repetition is dropped) is executed three times: the plain call, the plain call again (same answer required) and the chained call on
 //! `Ok(array)` through `impl … for Result<Array<T>, ArrayError>` (same answer required).
 //! Part 2 (after the third round of seeded changes):
 //!  * native lane-membership reference `native_map` (plain coordinate arithmetic: which input positions form the lane of an
@@ -690,11 +690,11 @@ fn native_cnt<T: Val>(op: &str, lane: &[T]) -> Option<Vec<Want<usize>>> {
 type Caught<R> = std::thread::Result<Result<Array<R>, ArrayError>>;
 fn text_of<R: Val>(r: &Caught<R>) -> String { match r { Ok(r) => show_out(r), Err(_) => "panic".into() } }
 /// judge the plain call, then require the repeated plain call and the chained call to answer alike
-fn finish<R: Val>(p1: Caught<R>, p2: Caught<R>, ch: Caught<R>, expected: &str, judge1: &dyn Fn(&Result<Array<R>, ArrayError>) -> Verdict) -> Verdict {
+fn finish<R: Val>(p1: Caught<R>, p2: Option<Caught<R>>, ch: Caught<R>, expected: &str, judge1: &dyn Fn(&Result<Array<R>, ArrayError>) -> Verdict) -> Verdict {
     let v = match &p1 { Ok(r) => judge1(r), Err(_) => compare_default("panic".into(), expected) };
     if let Verdict::Match(t) = &v {
         let alike = |x: &str| x == t || (class_of(x) == "err" && class_of(t) == "err");
-        let (t2, tc) = (text_of(&p2), text_of(&ch));
+        let (t2, tc) = (p2.as_ref().map_or_else(|| t.clone(), text_of), text_of(&ch));
         if !alike(&t2) { return Verdict::Mismatch { observed: truncate(t, 2000), detail: format!("the same call a second time answers `{}`", truncate(&t2, 300)) }; }
         if !alike(&tc) {
             // is the chained answer at least what the model + lane oracle accept?  (only for the report)
@@ -710,7 +710,8 @@ thread_local! { static LAST_PLAIN: RefCell<Option<String>> = RefCell::new(None);
 
 macro_rules! three { ($a:ident, $T:ty, |$x:ident| $e:expr) => {{
     let p1 = catch_unwind(AssertUnwindSafe(|| { let $x = &$a; $e }));
-    let p2 = catch_unwind(AssertUnwindSafe(|| { let $x = &$a; $e }));
+    // (arrays beyond 16 000 elements: the repeated plain call is left to the A-B-A discipline of the smaller cases)
+    let p2 = if $a.len().unwrap_or(0) > 16000 { None } else { Some(catch_unwind(AssertUnwindSafe(|| { let $x = &$a; $e }))) };
     let ch = catch_unwind(AssertUnwindSafe(|| { let r: Result<Array<$T>, ArrayError> = Ok($a.clone()); let $x = &r; $e }));
     (p1, p2, ch)
 }} }
@@ -843,7 +844,7 @@ fn exec(op: &str, args: &[&str], expected: &str) -> Option<Verdict> {
         }
     }
     // remember this case for the next one (cheap cases only: the re-run costs one call)
-    if let (Some(t), true) = (mine, n <= 20000) { PREV.with(|p| *p.borrow_mut() = Some((op.to_string(), args.iter().map(|x| x.to_string()).collect(), t))); }
+    if let (Some(t), true) = (mine, n <= 2000) { PREV.with(|p| *p.borrow_mut() = Some((op.to_string(), args.iter().map(|x| x.to_string()).collect(), t))); }
     Some(verdict)
 }
 
